@@ -5,9 +5,47 @@ import (
 	"errors"
 	"fmt"
 	"io"
+	"math/big"
+	"regexp"
+	"strconv"
+	"strings"
 
 	"github.com/goccy/go-json"
 )
+
+var jsonIntegerRegexp = regexp.MustCompile(`^-?(0|[1-9][0-9]*)$`)
+var decimalIntegerRegexp = regexp.MustCompile(`^[-+]?[0-9]+$`)
+
+// integers that do not fit an int64 (or were resolved to !!float because they do not fit 64 bits)
+// keep every digit: returns the exact decimal text
+func (o *CandidateNode) exactLargeInteger() (string, bool) {
+	value := strings.ReplaceAll(o.Value, "_", "")
+	switch o.guessTagFromCustomType() {
+	case "!!int":
+		if _, _, err := parseInt64(value); err == nil {
+			return "", false
+		}
+		if strings.HasPrefix(value, "0o") {
+			value = "0" + value[2:]
+		} else if decimalIntegerRegexp.MatchString(value) {
+			value = strings.TrimLeft(value, "+")
+			if parsed, ok := new(big.Int).SetString(value, 10); ok {
+				return parsed.String(), true
+			}
+			return "", false
+		}
+		if parsed, ok := new(big.Int).SetString(value, 0); ok {
+			return parsed.String(), true
+		}
+	case "!!float":
+		if decimalIntegerRegexp.MatchString(value) {
+			if parsed, ok := new(big.Int).SetString(strings.TrimLeft(value, "+"), 10); ok {
+				return parsed.String(), true
+			}
+		}
+	}
+	return "", false
+}
 
 func (o *CandidateNode) setScalarFromJson(value interface{}) error {
 	o.Kind = ScalarNode
@@ -111,6 +149,22 @@ func (o *CandidateNode) UnmarshalJSON(data []byte) error {
 		return nil
 	}
 	log.Debug("UnmarshalJSON -  its a scalar!")
+	if jsonIntegerRegexp.Match(bytes.TrimSpace(data)) {
+		// keep every digit of an integer (a float64 holds 53 bits)
+		o.Kind = ScalarNode
+		o.Tag = "!!int"
+		o.Value = string(bytes.TrimSpace(data))
+		if o.Value == "-0" {
+			o.Value = "0"
+		}
+		_, errSigned := strconv.ParseInt(o.Value, 10, 64)
+		_, errUnsigned := strconv.ParseUint(o.Value, 10, 64)
+		if errSigned != nil && errUnsigned != nil {
+			// yaml resolves integers beyond 64 bits as floats
+			o.Tag = "!!float"
+		}
+		return nil
+	}
 	// otherwise, must be a scalar
 	var scalar interface{}
 	err := json.Unmarshal(data, &scalar)
@@ -138,6 +192,10 @@ func (o *CandidateNode) MarshalJSON() ([]byte, error) {
 		return buf.Bytes(), err
 	case ScalarNode:
 		log.Debugf("MarshalJSON ScalarNode")
+		if exact, isLarge := o.exactLargeInteger(); isLarge {
+			buf.WriteString(exact)
+			return buf.Bytes(), nil
+		}
 		value, err := o.GetValueRep()
 		if err != nil {
 			return buf.Bytes(), err
